@@ -87,6 +87,12 @@ func foundationTable() map[string]foundation {
 			func(c *Ctx, sub *Report) { checkSearchDepth(c, sub) }, []string{"C01/search-depth"}, ""},
 		"read-until": {"read-until", "each read-until loop hands its accumulation to the matcher after every chunk it appended, before it reads again", 4,
 			func(c *Ctx, sub *Report) { checkMatchEveryChunk(c, sub, "C01/match-every-chunk") }, []string{"C01/match-every-chunk"}, ""},
+		"chunk-decoder": {"chunk-decoder", "the NETCONF 1.1 decoder takes each chunk exactly as long as its header declares, fails on any disagreement between framing and data, and succeeds only through the end-of-chunks marker", 3,
+			func(c *Ctx, sub *Report) { runC02(c, sub) }, []string{"C02/size-as-declared", "C02/terminator-required", "C02/failed-on-parse-error"}, ""},
+		"get-prompt": {"get-prompt", "GetPrompt writes one return, reads until the prompt once and hands back the prompt found in exactly those bytes; nothing it read is put back", 1,
+			func(c *Ctx, sub *Report) { checkGetPromptShape(c, sub) }, []string{"C04/get-prompt"}, ""},
+		"read-returns-dequeued": {"read-returns-dequeued", "whatever Channel.Read / ReadAll take out of the queue is returned to the caller on every path", 2,
+			func(c *Ctx, sub *Report) { runC20(c, sub) }, []string{"C20/dequeued-returned"}, "queue"},
 		"ansi": {"ansi", "the escape-sequence pattern applied by the read loop cannot run across ESC or a line end and never cuts a complete sequence short, and matches the specimen control sequences whole", 3,
 			func(c *Ctx, sub *Report) {
 				checkANSIPatternBounded(c, sub, "x/ansi")
